@@ -190,7 +190,7 @@ where
         let bit = b.as_int() & 1;
 
         // value which would be incorporated in the accumulator.
-        let value = Felt::new((exp.as_int() - 1) * bit + 1);
+        let value = (exp - ONE) * Felt::new(bit) + ONE;
 
         // current value of acc after including the value based on whether the bit is
         // 1 or not.
